@@ -88,6 +88,19 @@ func envInt(name string, def int64) int64 {
 }
 
 func TestMain(m *testing.M) {
+	if rr := os.Getenv("VERIF_RACE_RUN"); rr != "" {
+		// free-running body inside the -race binary
+		quietLogger()
+		world.SeedRandom(1, 0)
+		world.ResetClock()
+		if f := raceSupplements[rr]; f != nil {
+			f()
+		}
+		if scratchDir != "" {
+			os.RemoveAll(scratchDir)
+		}
+		os.Exit(0)
+	}
 	id := os.Getenv("VERIF_CHECK")
 	if id == "" {
 		os.Exit(m.Run())
@@ -198,6 +211,9 @@ func runCheck(id string) int {
 	}
 	if d.post != nil && total.Exhaustive {
 		d.post(&Ctx{Part: total, ID: id, Tier: tier, Seed: seed, Shard: 0, Shards: 1, Deadline: start.Add(time.Duration(deadlineS) * time.Second), VerifDir: verifDir})
+	}
+	if tier == "thorough" {
+		runRaceSupplement(&Ctx{Part: total, ID: id, Tier: tier, Seed: seed, Shards: 1, Deadline: start.Add(time.Duration(deadlineS) * time.Second), VerifDir: verifDir}, id)
 	}
 	if d.finish != nil {
 		d.finish(&Ctx{Part: total, ID: id, Tier: tier, Seed: seed, Shard: 0, Shards: n, Deadline: start.Add(time.Duration(deadlineS) * time.Second), VerifDir: verifDir})
